@@ -65,6 +65,7 @@ pub fn run(c: &Value) -> CaseResult {
     let mut h = CnfHasher::new(&cls, n);
     let mut models: Vec<Vec<Option<bool>>> = vec![vec![None; n]];
     let mut seen: Vec<(Vec<(usize, Vec<(usize, bool)>)>, rsdd::repr::HashedCNF, String)> = vec![];
+    let oneway = c["oneway"].as_bool().unwrap_or(false);
     let ops = c["ops"].as_array().cloned().unwrap_or_default();
     for k in 0..=ops.len() {
         if k > 0 {
@@ -91,7 +92,8 @@ pub fn run(c: &Value) -> CaseResult {
             .collect();
         let hv = h.hash(&PartialModel::from_assignments(m));
         for (s2, h2, at) in seen.iter() {
-            if (*s2 == sig) != (*h2 == hv) {
+            // with many literal occurrences the product of primes may wrap, so only "same residual => same hash" is demanded
+            if (if oneway { *s2 == sig && *h2 != hv } else { (*s2 == sig) != (*h2 == hv) }) {
                 return Err(format!("after op {k} (model {:?}) and {at}: residual formulas {} but hashes {}", m,
                     if *s2 == sig { "coincide" } else { "differ" }, if *h2 == hv { "are equal" } else { "differ" }));
             }
@@ -108,6 +110,22 @@ pub fn candidates(seed: u64) -> Vec<Value> {
     // the documented example and a few fixed histories
     out.push(json!({"case": "hasher_hist", "nvars": 3, "cnf": [[1, 2], [-1, 3]], "ops": [["push"], ["decide", 1], ["pop"], ["push"], ["decide", -1], ["pop"], ["decide", 3]]}));
     out.push(json!({"case": "hasher_hist", "nvars": 3, "cnf": [[1, 2], [1, 2], [3]], "ops": [["push"], ["decide", -1], ["push"], ["decide", 3], ["pop"], ["pop"], ["decide", 2]]}));
+    // size thresholds: labels up to 129 (few mentioned variables, at most 15 literal occurrences) and formulas of 66-80 clauses
+    // (there only "same residual => same hash": the prime product may wrap)
+    for t in 0..40 {
+        let wide = t % 2 == 0;
+        let k = 4 + nx(3) as usize;
+        let mut labels: Vec<i64> = vec![];
+        while labels.len() < k { let l = if wide { 1 + nx(130) as i64 } else { 1 + nx(8) as i64 }; if !labels.contains(&l) { labels.push(l); } }
+        let ncl = if wide { 2 + nx(4) } else { 66 + nx(15) };
+        let cnf: Vec<Vec<i64>> = (0..ncl).map(|_| { let w = 2 + nx(2) as usize; let mut vs: Vec<i64> = vec![]; while vs.len() < w { let v = labels[nx(k as u64) as usize]; if vs.iter().any(|x: &i64| x.abs() == v) { continue; } vs.push(if nx(2) == 0 { v } else { -v }); } vs.sort_by_key(|x| x.abs()); vs }).collect();
+        let mut ops: Vec<Value> = vec![];
+        let mut depth = 0;
+        for _ in 0..(8 + nx(16)) {
+            match nx(4) { 0 => { ops.push(json!(["push"])); depth += 1; } 1 if depth > 0 => { ops.push(json!(["pop"])); depth -= 1; } _ => { let v = labels[nx(k as u64) as usize]; ops.push(json!(["decide", if nx(2) == 0 { v } else { -v }])); } }
+        }
+        out.push(json!({"case": "hasher_hist", "nvars": if wide { 131 } else { 9 }, "cnf": cnf, "ops": ops, "oneway": !wide}));
+    }
     // exhaustive over partial assignments: 3-5 variables, 2-5 clauses of 2-3 literals (at most 15 literal occurrences, so the
     // product of the first 15 primes bounds every hash: < 2^128).  Half of the formulas use one pivot variable in both
     // polarities and otherwise positive literals, so that the same literal occurs in several clauses.
